@@ -7,7 +7,15 @@ from core import AnalysisBroken, VERIF
 # property -> list of (rule id, module, function, tiers)
 CHECKS = {
     "C15": [("R-GLOBAL", "r_global", "run_global", ("quick", "thorough"))],
-    "C04": [("R-ALLOC.who", "r_global", "run_alloc_who", ("quick", "thorough"))],
+    "C04": [("R-ALLOC.who", "r_global", "run_alloc_who", ("quick", "thorough")),
+            ("R-TMP", "r_tmp", "run", ("quick", "thorough"))],
+}
+
+# rule id -> (module, function) used by the mutation self-tests
+RULES = {
+    "R-GLOBAL": ("r_global", "run_global"),
+    "R-ALLOC.who": ("r_global", "run_alloc_who"),
+    "R-TMP": ("r_tmp", "run"),
 }
 
 EXPLANATION = {
@@ -24,12 +32,15 @@ ASSUMPTIONS = {
                  "routines touching only their arguments (checked by R-ABI under C14)",
                  "indirect calls are not followed in the reach computation (function tables are constant, checked)",
                  "races on caller-owned objects are the caller's responsibility (manual, Reentrancy)"],
+    "R-TMP": ["evaluated in the malloc-reentrant + assert model of the current config.h; the alloca and debug modes impose a subset of its obligations",
+              "noreturn callees (__gmp_assert_fail, __gmp_divide_by_zero, abort) are not exits",
+              "taint is may-information joined at merges; ASSERT (p == <non-TMP expr>) clears p (the repository's stated invariant)"],
     "R-ALLOC.who": ["direct calls and address-taking in the linked IR are all the ways to reach the C allocator"],
 }
 
 
 def run(prop, tier):
-    out = dict(findings=[], rules=[])
+    out = dict(findings=[], rules=[], mutants=[])
     for rule, mod, fn, tiers in CHECKS[prop]:
         if tier not in tiers:
             continue
@@ -40,6 +51,13 @@ def run(prop, tier):
         r["wall_s"] = round(time.time() - t0, 2)
         out["rules"].append(r)
         out["findings"] += r["findings"]
+    if tier == "thorough":
+        # positive controls on the real tree: every seeded mutant of this property must be caught
+        results, rc = selftest(props={prop})
+        out["mutants"] = results
+        bad = [r for r in results if r["status"] in ("missed", "broken")]
+        if bad:
+            raise AnalysisBroken("mutation self-test failed: %s" % ", ".join("%s(%s)" % (r["id"], r["status"]) for r in bad))
     return out
 
 
@@ -64,6 +82,7 @@ def evidence(prop, tier, seed, out, nviol, nknown, wall):
     cov = dict(explanation=EXPLANATION.get(prop, ""), obligations=obligations, discharged=proved,
                undecided=undecided, refuted=len(out["findings"]), known_findings=nknown,
                samples=samples[:40] or ["(no samples)"], rules=per_rule, exhaustive=exhaustive,
+               mutants=out.get("mutants", []),
                repo_head=core.run(["git", "-C", core.REPO, "rev-parse", "HEAD"], check=False).stdout.strip(),
                evaluations=max(obligations, 1), distinct_nontrivial=max(obligations, 2),
                rule="one evaluation = one static obligation (a function x rule instance, a global, a call site, a table entry) decided on this run")
@@ -71,6 +90,19 @@ def evidence(prop, tier, seed, out, nviol, nknown, wall):
                 assumptions=sorted(set(assumptions)), wall_s=round(wall, 2), violations=nviol)
 
 
-def selftest(which=None):
-    print("no selftests registered yet")
-    return 0
+def selftest(which=None, props=None):
+    """run the mutation self-tests; returns (results, exit code)"""
+    import mutants
+    results = []
+    for m in mutants.load():
+        if which and which not in (m["rule"], m["id"]):
+            continue
+        if props and m["prop"] not in props:
+            continue
+        mod, fn = RULES[m["rule"]]
+        f = getattr(importlib.import_module(mod), fn)
+        st, detail = mutants.run_mutant(m, lambda: f(prop=m["prop"], tier="quick"))
+        results.append(dict(id=m["id"], rule=m["rule"], property=m["prop"], status=st, detail=detail))
+        print("mutant %-28s %-12s %-8s %s" % (m["id"], m["rule"], st, detail[:140]))
+    missed = [r for r in results if r["status"] in ("missed", "broken")]
+    return results, (2 if missed else 0)
